@@ -28,6 +28,7 @@ _MAY_PANIC = [(re.compile('^(?:%s)$' % r[0]), r[1], r[2]) for r in _load_tsv('ma
 TOTAL_CTORS = {r[0]: r[1] for r in _load_tsv('total_ctors.tsv')}
 
 DECIMAL = 'rust_decimal::Decimal'
+UB_CHECK_ASSERTS = {'NullPointerDereference', 'MisalignedPointerDereference', 'InvalidEnumConstruction'}
 _DEC_OPS = re.compile(r'^std::ops::(Add|Sub|Mul|Div|Rem)(Assign)?::\w+$')
 _SUMPROD = re.compile(r'^std::iter::(Iterator::(sum|product)|Sum::sum|Product::product)$')
 
@@ -79,6 +80,8 @@ def sites_of(body):
     lb = body.live_blocks
     for b in sorted(lb):
         t = body.blocks[b]['term']
+        if t['k'] == 'assert' and t['kind'] in UB_CHECK_ASSERTS:
+            continue   # debug-assertions UB checks on references: cannot fail in a crate without unsafe (UNSAFE rule)
         if t['k'] == 'assert':
             out.append(Site(body, b, 'assert', t['kind'] + (':' + t['msg'].split('(')[1].split(',')[0] if t['kind'] == 'Overflow' and '(' in t['msg'] else ''),
                             'MIR Assert(%s)' % t['msg'][:60], term=t))
